@@ -12,7 +12,31 @@ use std::collections::HashMap;
 #[derive(Debug, PartialEq, Clone, Default)] pub struct NewA(pub u32);
 #[derive(Debug, PartialEq, Clone, Default)] pub struct NewB(pub u32);
 
-pub const NTYPES: usize = 8;
+pub const NTYPES: usize = 10;
+
+fn apply_t<T: std::fmt::Debug + 'static>(set: &mut ErasedSet, op: char, v: u32, mk: fn(u32) -> T, rd: fn(&T) -> u32) -> String {
+    match op {
+        'i' => match set.insert::<T>(mk(v)) { Some(o) => format!("some:{}", rd(&o)), None => "none".into() },
+        'g' => match set.get::<T>() { Some(o) => format!("some:{}", rd(o)), None => "none".into() },
+        'm' => match set.get_mut::<T>() { Some(o) => { *o = mk(v); "1".into() } None => "0".into() },
+        'o' => { let x = set.get_or_insert::<T>(mk(v)); format!("{}", rd(x)) }
+        'r' => match set.remove::<T>() { Some(o) => format!("some:{}", rd(&o)), None => "none".into() },
+        'h' => (set.contains::<T>() as u8).to_string(),
+        _ => unreachable!(),
+    }
+}
+
+/// two DISTINCT types whose `std::any::type_name` is identical (same-named structs in sibling blocks of one function):
+/// a store keyed by the type name instead of the TypeId confuses them
+fn same_name(set: &mut ErasedSet, which: usize, op: char, v: u32) -> (String, TypeId) {
+    if which == 0 {
+        #[derive(Debug)] struct Same(u32);
+        (apply_t::<Same>(set, op, v, |v| Same(v), |o| o.0), TypeId::of::<Same>())
+    } else {
+        #[derive(Debug)] struct Same(u32);
+        (apply_t::<Same>(set, op, v, |v| Same(v), |o| o.0), TypeId::of::<Same>())
+    }
+}
 
 /// apply op on type index `k` with value `v`; returns the canonical result string
 pub fn apply(set: &mut ErasedSet, op: char, k: usize, v: u32) -> String {
@@ -42,7 +66,9 @@ pub fn apply(set: &mut ErasedSet, op: char, k: usize, v: u32) -> String {
         4 => go!(ZstA, |_v: u32| ZstA, |_o: &ZstA| 0u32),
         5 => go!(ZstB, |_v: u32| ZstB, |_o: &ZstB| 0u32),
         6 => go!(NewA, |v: u32| NewA(v), |o: &NewA| o.0),
-        _ => go!(NewB, |v: u32| NewB(v), |o: &NewB| o.0),
+        7 => go!(NewB, |v: u32| NewB(v), |o: &NewB| o.0),
+        8 => same_name(set, 0, op, v).0,
+        _ => same_name(set, 1, op, v).0,
     }
 }
 
@@ -50,7 +76,9 @@ pub fn apply(set: &mut ErasedSet, op: char, k: usize, v: u32) -> String {
 pub fn stored(k: usize, v: u32) -> u32 { match k { 0 => v % 256, 1 => v % 65536, 3 => v % 4, 4 | 5 => 0, _ => v } }
 
 fn tid(k: usize) -> TypeId {
-    match k { 0 => TypeId::of::<u8>(), 1 => TypeId::of::<u16>(), 2 => TypeId::of::<String>(), 3 => TypeId::of::<&'static str>(), 4 => TypeId::of::<ZstA>(), 5 => TypeId::of::<ZstB>(), 6 => TypeId::of::<NewA>(), _ => TypeId::of::<NewB>() }
+    match k { 0 => TypeId::of::<u8>(), 1 => TypeId::of::<u16>(), 2 => TypeId::of::<String>(), 3 => TypeId::of::<&'static str>(), 4 => TypeId::of::<ZstA>(), 5 => TypeId::of::<ZstB>(), 6 => TypeId::of::<NewA>(), 7 => TypeId::of::<NewB>(),
+              8 => { let mut s = ErasedSet::new(); same_name(&mut s, 0, 'h', 0).1 }
+              _ => { let mut s = ErasedSet::new(); same_name(&mut s, 1, 'h', 0).1 } }
 }
 
 pub fn gen_ops(rng: &mut Rng) -> Vec<(char, usize, u32)> {
